@@ -1,13 +1,30 @@
-"""Entry point of a remote ScriptedSim process: ``python -m vlab.simproc HOST:PORT``."""
+"""Entry point of a remote ScriptedSim process: ``python -m vlab.simproc HOST:PORT``.
+
+The harness process (not the repository) also records when the 'stop' request arrives on the wire: the
+simulator API gives a simulator no callback for it (finalize() runs after 'stop' *and* after a plain EOF)."""
 import sys
 
 import mosaik_api_v3
+from mosaik_api_v3.connection import Channel
 
 from vlab.sims import ScriptedSim
 
 
 def main():
-    return mosaik_api_v3.start_simulation(ScriptedSim(), "vlab scripted simulator", configure_logging=False)
+    sim = ScriptedSim()
+    orig = Channel.next_request
+
+    async def next_request(self):
+        req = await orig(self)
+        try:
+            if req.content[0] == "stop" and sim.remote:
+                sim._rec(op="stop_received", sid=sim.sid)
+        except Exception:  # noqa: BLE001
+            pass
+        return req
+
+    Channel.next_request = next_request
+    return mosaik_api_v3.start_simulation(sim, "vlab scripted simulator", configure_logging=False)
 
 
 if __name__ == "__main__":
